@@ -176,8 +176,17 @@ def b(x):
     return 'true' if x else 'false'
 
 
-def op_coq(op):
+def op_coq(op, assigned=None):
     k = op[0]
+    if k in ('on', 'alias'):
+        # an operation on ANOTHER image (or the creation of one) is the identity for the tracked image
+        return 'Copy'
+    if k == 'setdata_inplace':
+        # in-place edit by the caller followed by an assignment = assignment of the edited contents
+        d, dt = assigned
+        ii = np.iinfo(dt)
+        return (f'SetData true {len(d)}%nat {len(d[0])}%nat {zl([v for row in d for v in row])} '
+                f'{coq(int(ii.min))} {coq(int(ii.max))}')
     if k == 'read':
         return f'Read {ATTR_KEY[op[1]]}'
     if k == 'reassign':
@@ -214,7 +223,10 @@ def make_obj(init):
     from photutils.segmentation import SegmentationImage, deblend_sources, detect_sources
     kind = init['kind']
     if kind == 'array':
-        return SegmentationImage(np.array(init['data'], dtype=init['dtype']))
+        arr = np.array(init['data'], dtype=init['dtype'])
+        obj = SegmentationImage(arr)
+        obj._c05_ctor = arr          # the array the caller constructed the image from
+        return obj
     img = np.array(init['image'], dtype=float)
     with warnings.catch_warnings():
         warnings.simplefilter('ignore')
@@ -225,12 +237,49 @@ def make_obj(init):
                                mode=init['mode'], connectivity=init['connectivity'], progress_bar=False)
 
 
-def apply_op(obj, op):
+def inplace_value(obj, op):
+    """('setdata_inplace', source, edits, how): fetch the array object the image holds (through
+    .data, ._data or the array the caller constructed it from), change its contents in place
+    (labels removed / painted / swapped) and return (edited array, value to assign)."""
+    _, source, edits, how = op
+    arr = obj.data
+    if source == '_data':
+        arr = obj._data
+    elif source == 'ctor' and getattr(obj, '_c05_ctor', None) is obj._data:
+        arr = obj._c05_ctor
+    hi = int(np.iinfo(arr.dtype).max)
+    ny, nx = arr.shape
+    for e in edits:
+        if e[0] == 'zero':
+            arr[arr == e[1]] = 0
+        elif e[0] == 'paint' and 0 <= e[1] <= hi:
+            for y, x in e[2]:
+                if 0 <= y < ny and 0 <= x < nx:
+                    arr[y, x] = e[1]
+        elif e[0] == 'swap' and 0 < e[1] <= hi and 0 < e[2] <= hi:
+            ma, mb = arr == e[1], arr == e[2]
+            arr[ma], arr[mb] = e[2], e[1]
+    if how == 'same':
+        value = arr
+    elif how == 'view':
+        value = arr[:]
+    elif how == 'view2':
+        value = arr.view()
+    elif how == 'copy':
+        value = arr.copy()
+    else:
+        value = arr.astype(how.split(':')[1])
+    return arr, value
+
+
+def apply_op(obj, op, extra=None):
     """Run one op on the real object.  Returns (object to continue with, outcome code,
-    exception name or None, value read or None)."""
+    exception name or None, value read or None).  extra (dict) receives the array handed to
+    the data setter ('assigned') and the array edited in place ('edited')."""
     k = op[0]
     val = None
     newobj = obj
+    extra = {} if extra is None else extra
     with warnings.catch_warnings(record=True) as w:
         warnings.simplefilter('always')
         try:
@@ -265,7 +314,11 @@ def apply_op(obj, op):
                     m = m.reshape(len(op[1]), 0)
                 obj.remove_masked_labels(m, partial_overlap=op[2], relabel=op[3])
             elif k == 'setdata':
-                obj.data = np.array(op[1], dtype=op[2])
+                extra['assigned'] = np.array(op[1], dtype=op[2])
+                obj.data = extra['assigned']
+            elif k == 'setdata_inplace':
+                extra['edited'], extra['assigned'] = inplace_value(obj, op)
+                obj.data = extra['assigned']
             elif k == 'copy':
                 newobj = obj.copy()
             else:
@@ -282,14 +335,20 @@ def apply_op(obj, op):
 # --------------------------------------------------------------------------
 def site(op):
     k = op[0]
+    if k == 'on':
+        return site(tuple(op[2]))
+    if k == 'setdata_inplace':
+        return f'data.setter[{"same-array-object" if op[3] == "same" else op[3].split(":")[0] + "-of-held-array"}]'
     return {'read': 'read', 'reassign': 'reassign_labels', 'relabel_consecutive': 'relabel_consecutive',
             'keep': 'keep_labels', 'remove': 'remove_labels', 'border': 'remove_border_labels',
-            'masked': 'remove_masked_labels', 'setdata': 'data.setter', 'copy': 'copy'}[k]
+            'masked': 'remove_masked_labels', 'setdata': 'data.setter', 'setdata_inplace': 'data.setter',
+            'copy': 'copy', 'alias': 'second-image-on-same-buffer'}[k]
 
 
-def expected_effect(prev, op, hi):
+def expected_effect(prev, op, hi, assigned=None):
     """Documented effect of op on the list-of-lists prev (labels are Python ints).
-    Returns (documented_arguments, label function as dict or None, relabel flag / start)."""
+    Returns (documented_arguments, label function as dict or None, relabel flag / start).
+    assigned = (contents, dtype) of the array handed to the data setter."""
     labs = labels_of(prev)
     ny, nx = len(prev), len(prev[0])
     k = op[0]
@@ -339,6 +398,8 @@ def expected_effect(prev, op, hi):
         d, dt = op[1], op[2]
         ok = not dt.startswith('float') and all(v >= 0 for row in d for v in row)
         return ok, None
+    if k == 'setdata_inplace':
+        return all(v >= 0 for row in assigned[0] for v in row), None
     raise KeyError(k)
 
 
@@ -532,8 +593,10 @@ def signature(vk, attr, op, prev, cur, hi, hi_cur=None):
     return f'{s}:{vk}' + (f':{attr}' if attr else '')
 
 
-def step_violations(prev, prev_dm, prev_dt, op, obj, code, exc):
-    """All property violations visible after this step: list of (signature, what, detail)."""
+def step_violations(prev, prev_dm, prev_dt, op, obj, code, exc, assigned=None):
+    """All property violations visible after this step: list of (signature, what, detail).
+    For the data setter the comparison array is the ASSIGNED one (for an in-place edit followed by
+    an assignment: the edited contents), so prev is replaced by it when the call fails."""
     hi = int(np.iinfo(prev_dt).max)
     cur = ilist(obj.data)
     cur_dm = dmap_list(obj)
@@ -544,19 +607,25 @@ def step_violations(prev, prev_dm, prev_dt, op, obj, code, exc):
     def add(vk, attr, what, detail):
         res.append((signature(vk, attr, op, prev, cur, hi, int(np.iinfo(cur_dt).max)), what, detail))
 
-    documented, g = expected_effect(prev, op, hi)
+    documented, g = expected_effect(prev, op, hi, assigned)
     if exc is not None:
+        if k == 'setdata_inplace':
+            prev = ilist(obj.data)    # the caller edited the held array before the (failed) assignment
         if cur != prev or cur_dm != prev_dm or cur_dt != prev_dt:
             add('state-changed-by-failed-call', None, f'{site(op)} raised {exc} but changed the object', {})
         if documented:
             add('raises-on-documented-arguments', op[1] if k == 'read' else None,
                 f'{site(op)} raises {exc} on documented arguments', {})
     else:
-        if k != 'setdata' and cur_dt != prev_dt:
+        if k not in ('setdata', 'setdata_inplace') and cur_dt != prev_dt:
             add('dtype', None, f'dtype changed from {prev_dt} to {cur_dt}', {})
+        if k == 'setdata_inplace' and cur_dt != assigned[1]:
+            add('dtype', None, f'dtype {cur_dt} is not that of the assigned array ({assigned[1]})', {})
         if documented:
             if k == 'setdata':
                 want, want_dm = [list(r) for r in op[1]], []
+            elif k == 'setdata_inplace':
+                want, want_dm = assigned[0], []
             else:
                 want = [[(g[v] if v else 0) for v in row] for row in prev]
                 want_dm = [(p, [g[c] for c in cs if g.get(c, 0) != 0]) for p, cs in prev_dm]
@@ -579,9 +648,36 @@ def cached_keys(obj):
     return [a for a in ATTRS if a in obj.__dict__]
 
 
+SETDATA_KINDS = ('setdata', 'setdata_inplace')
+
+
+def make_alias(img, how):
+    """another SegmentationImage on the SAME buffer: a second constructor call on the array the
+    image holds, or a slice segm[ys, xs] (documented to be a view of the parent's data)"""
+    from photutils.segmentation import SegmentationImage
+    if how[0] == 'ctor':
+        arr = img.data
+        new = SegmentationImage(arr)
+        new._c05_ctor = arr
+        return new
+    _, y0, y1, x0, x1 = how
+    new = img[y0:y1, x0:x1]
+    new._c05_ctor = new._data
+    return new
+
+
 def run_history(job):
     """job: {'init':..., 'ops': [...]} or {'init':..., 'seed': s, 'length': n}.  Returns the
-    realised ops, the Coq case, the violations [(step, signature, what, detail)] and stats."""
+    realised ops, the Coq case, the violations [(step, signature, what, detail)] and stats.
+
+    The history acts on a POOL of images: image 0 is the one the Coq case follows; ('alias', t, how)
+    adds an image on the buffer of image t, ('on', t, op) applies op to image t, 'copy' replaces the
+    image by its deep copy and keeps the original in the pool.  After every step: the image acted on
+    is checked against the documented effect and a fresh image; every other image must be untouched
+    (array, cached keys, deblend map); every array the caller handed in (constructor / data setter)
+    must be bit-for-bit what it was, unless the caller edited it himself ('setdata_inplace'): then
+    the other images on that buffer are out of date by the caller's doing and are left out of the
+    oracle until data is assigned to them."""
     init = job['init']
     obj = make_obj(init)
     if obj is None:
@@ -601,17 +697,84 @@ def run_history(job):
         for vk, attr, what, detail in fresh_violations(obj):
             viol.append((-1, signature(vk, attr, ('read', attr or 'labels'), d0, d0, int(np.iinfo(dt0).max)), what, detail))
     first_bad = None if not viol else -1
-    originals = []
+    pool = [{'img': obj, 'dirty': False}]
+    held = []                      # arrays the caller handed to the API, with their bytes
+    if getattr(obj, '_c05_ctor', None) is not None:
+        held.append([obj._c05_ctor, obj._c05_ctor.tobytes()])
+    kstop = False                  # image 0 went out of date by the caller's doing: stop the Coq case
     mutated = 0
     for i in range(n):
-        prev, prev_dm, prev_dt = ilist(obj.data), dmap_list(obj), str(obj.data.dtype)
-        op = tuple(ops_in[i]) if ops_in is not None else gen_op(rng, prev, prev_dt, prev_dm)
+        if ops_in is not None:
+            op = tuple(ops_in[i])
+        else:
+            live = [t for t, e in enumerate(pool) if t > 0]
+            r = rng.random()
+            if r < 0.06 and len(pool) < 4:
+                t = rng.randrange(len(pool))
+                sh = pool[t]['img'].data.shape
+                if rng.random() < 0.5:
+                    how = ['ctor']
+                else:
+                    y0, x0 = rng.randrange(sh[0]), rng.randrange(sh[1])
+                    how = ['slice', y0, rng.randint(y0 + 1, sh[0]), x0, rng.randint(x0 + 1, sh[1])]
+                    if rng.random() < 0.4:
+                        how = ['slice', 0, sh[0], 0, sh[1]]
+                op = ('alias', t, how)
+            else:
+                t = rng.choice(live) if (live and r < 0.45) else 0
+                e = pool[t]
+                inner = gen_op(rng, ilist(e['img'].data), str(e['img'].data.dtype), dmap_list(e['img']),
+                               only_setdata=e['dirty'])
+                op = inner if t == 0 else ('on', t, inner)
         ops.append(op)
-        if op[0] == 'copy':
-            originals.append((obj, ilist(obj.data), cached_keys(obj), dmap_list(obj)))
-        obj, code, exc, val = apply_op(obj, op)
-        cur = ilist(obj.data)
-        stats.append((op[0], code))
+        if op[0] == 'alias':
+            t, inner = op[1], op
+        elif op[0] == 'on':
+            t, inner = op[1], tuple(op[2])
+        else:
+            t, inner = 0, op
+        if t >= len(pool) or (pool[t]['dirty'] and inner[0] not in SETDATA_KINDS):
+            stats.append(('skipped', 0))       # (only when ops are replayed in another context)
+            continue
+        ent = pool[t]
+        img = ent['img']
+        before = [(ilist(e['img'].data), cached_keys(e['img']), dmap_list(e['img'])) for e in pool]
+        prev, prev_dm, prev_dt = before[t][0], before[t][2], str(img.data.dtype)
+        extra = {}
+        newimg = None
+        if inner[0] == 'alias':
+            try:
+                newimg, code, exc, val = make_alias(img, inner[2]), 0, None, None
+            except Exception as e:  # noqa: BLE001
+                code, exc, val = CODES.get(type(e).__name__, 9), type(e).__name__, None
+        else:
+            res_img, code, exc, val = apply_op(img, inner, extra)
+            if inner[0] == 'copy' and code == 0:
+                pool.append({'img': img, 'dirty': ent['dirty']})     # the original stays around
+                ent['img'] = res_img
+        img = ent['img']
+        assigned = None
+        if 'assigned' in extra:
+            assigned = (ilist(extra['assigned']), str(extra['assigned'].dtype)) \
+                if np.issubdtype(extra['assigned'].dtype, np.integer) else None
+        if 'edited' in extra:       # the caller changed this buffer himself
+            for h in held:
+                if np.shares_memory(h[0], extra['edited']):
+                    h[1] = h[0].tobytes()
+            for u, e in enumerate(pool):
+                if u != t and u < len(before) and np.shares_memory(e['img'].data, extra['edited']):
+                    e['dirty'] = True
+                    before[u] = (ilist(e['img'].data), before[u][1], before[u][2])
+                    if u == 0:
+                        kstop = True
+        if 'edited' in extra and code != 0:
+            ent['dirty'] = True      # the caller edited the held array and the assignment was refused
+            kstop = kstop or t == 0
+        if inner[0] in SETDATA_KINDS and code == 0:
+            ent['dirty'] = False
+            held.append([extra['assigned'], extra['assigned'].tobytes()])
+        cur = ilist(img.data)
+        stats.append((inner[0] if op[0] != 'on' else 'other-image:' + inner[0], code))
         if max(max(r) for r in cur) > BIG:
             # lookup tables / find_objects have max_label + 1 entries: do not follow such arrays
             # (only reachable when ops are replayed in another context, e.g. while shrinking)
@@ -619,10 +782,39 @@ def run_history(job):
             break
         if code in (0, 1) and cur != prev:
             mutated += 1
-        vs = step_violations(prev, prev_dm, prev_dt, op, obj, code, exc) if check else []
-        for o, od, ok, odm in originals:
-            if ilist(o.data) != od or cached_keys(o) != ok or dmap_list(o) != odm:
-                vs.append(('copy:original-changed', 'the object a copy was taken from changed when the copy was used', {}))
+        vs = []
+        if check:
+            if inner[0] == 'alias':
+                if newimg is not None:
+                    hi = int(np.iinfo(newimg.data.dtype).max)
+                    dn = ilist(newimg.data)
+                    for vk, attr, what, detail in fresh_violations(newimg):
+                        vs.append((signature(vk, attr, ('read', attr or 'labels'), dn, dn, hi), what, detail))
+            elif ent['dirty']:
+                pass        # a failed assignment to an image that is out of date by the caller's doing
+            else:
+                vs = step_violations(prev, prev_dm, prev_dt, inner, img, code, exc, assigned)
+            st = site(inner)
+            for u, e in enumerate(pool):
+                if u >= len(before) or e['dirty'] or (u == t and inner[0] != 'alias'):
+                    continue
+                now = (ilist(e['img'].data), cached_keys(e['img']), dmap_list(e['img']))
+                if now != before[u]:
+                    what = ('label array' if now[0] != before[u][0] else 'cached keys' if now[1] != before[u][1]
+                            else 'deblend map')
+                    vs.append((f'shared-buffer:other-image-changed:{st}',
+                               f'{st} on one image changed the {what} of another image (no cache reset there)',
+                               {'image': u, 'acted_on': t, 'before': before[u][0], 'after': now[0]}))
+                    hi = int(np.iinfo(e['img'].data.dtype).max)
+                    for vk, attr, what2, detail in fresh_violations(e['img']):
+                        vs.append((f'shared-buffer:other-image-changed:{st}', what2 + f' (image {u})', detail))
+            for h in held:
+                if h[0].tobytes() != h[1]:
+                    vs.append((f'shared-buffer:caller-array-modified:{st}',
+                               f'{st} wrote into an array the caller passed to the constructor / data setter', {}))
+                    h[1] = h[0].tobytes()
+        if newimg is not None:
+            pool.append({'img': newimg, 'dirty': False})
         if vs and first_bad is None:
             # only the first violating step of a history is reported: later ones may be consequences
             first_bad = i
@@ -633,8 +825,11 @@ def run_history(job):
                     viol.append((i, sig, what, detail))
         if any(what.startswith('SegmentationImage(data.copy()) raises') for _, what, _ in vs):
             break       # the array itself is no longer a valid segmentation array
-        if first_bad is None:
-            nx = len(cur[0]) if cur else 0
+        if first_bad is None and not kstop:
+            o0 = pool[0]['img']
+            c0 = ilist(o0.data)
+            p0 = before[0][0]
+            nx = len(c0[0]) if c0 else 0
             try:
                 vterm = f'Some {val_coq(op[1], val, nx)}' if (op[0] == 'read' and code == 0) else 'None'
             except Exception as e:  # noqa: BLE001
@@ -642,18 +837,19 @@ def run_history(job):
                 viol.append((i, f'read:unrepresentable:{op[1]}', f'value of {op[1]} cannot be rendered: {e}', {}))
                 first_bad = i
                 continue
-            dterm = 'None' if (cur == prev and len(cur) == len(prev)) else 'Some ' + zl([v for r in cur for v in r])
-            cdm = dmap_list(obj)
-            mterm = 'None' if cdm == prev_dm else 'Some ' + dm_coq(cdm)
-            keys = '[' + '; '.join(ATTR_KEY[a] for a in cached_keys(obj)) + ']'
-            steps.append(f'({op_coq(op)}, ({code}, {vterm}, {dterm}, {keys}, {mterm}))')
+            kcode = code if t == 0 and op[0] != 'alias' else 0
+            dterm = 'None' if c0 == p0 else 'Some ' + zl([v for r in c0 for v in r])
+            cdm = dmap_list(o0)
+            mterm = 'None' if cdm == before[0][2] else 'Some ' + dm_coq(cdm)
+            keys = '[' + '; '.join(ATTR_KEY[a] for a in cached_keys(o0)) + ']'
+            steps.append(f'({op_coq(op, assigned)}, ({kcode}, {vterm}, {dterm}, {keys}, {mterm}))')
     ii = np.iinfo(dt0)
     kind = {'array': 0, 'detect': 1, 'deblend': 2}[init['kind']]
     term = (f'({kind}, ({len(d0)}, {len(d0[0])}), {zl([v for r in d0 for v in r])}, '
             f'({coq(int(ii.min))}, {coq(int(ii.max))}), {dm_coq(dm0)}, [' + ';\n   '.join(steps) + '])')
     return {'init': init, 'ops': [list(o) for o in ops], 'coq': term, 'viol': viol, 'stats': stats,
             'mutated': mutated, 'dtype': dt0, 'nsteps_in_coq': len(steps),
-            'features': features(d0, dt0, dm0)}
+            'features': features(d0, dt0, dm0) + (['several-images'] if len(pool) > 1 else [])}
 
 
 class _Timeout(Exception):
@@ -806,11 +1002,34 @@ def rand_mask(rng, prev):
     return [[rng.random() < p for _ in range(nx)] for _ in range(ny)]
 
 
-def gen_op(rng, prev, dt, dm):
+def gen_inplace(rng, prev, dt):
+    """the caller fetches the array the image holds, edits it in place and assigns it back"""
+    labs = labels_of(prev)
+    hi = int(np.iinfo(dt).max)
+    ny, nx = len(prev), len(prev[0])
+    edits = []
+    for _ in range(rng.choice([0, 1, 1, 1, 2, 3])):
+        c = rng.random()
+        if c < 0.4 and labs:
+            edits.append(['zero', rng.choice(labs)])                      # a label disappears
+        elif c < 0.8:
+            new = rng.choice(labs) if (labs and rng.random() < 0.4) else min(hi, (max(labs) if labs else 0) + rng.randint(1, 3))
+            edits.append(['paint', int(new), [[rng.randrange(ny), rng.randrange(nx)] for _ in range(rng.randint(1, 3))]])
+        elif len(labs) >= 2:
+            a, b2 = rng.sample(labs, 2)
+            edits.append(['swap', a, b2])                                  # renumbering
+    how = rng.choice(['same', 'same', 'same', 'same', 'view', 'view2', 'copy',
+                      'astype:' + rng.choice([t for t in DTYPES if t != dt])])
+    return ('setdata_inplace', rng.choice(['data', '_data', 'ctor']), edits, how)
+
+
+def gen_op(rng, prev, dt, dm, only_setdata=False):
     labs = labels_of(prev)
     hi = int(np.iinfo(dt).max)
     ny, nx = len(prev), len(prev[0])
     r = rng.random()
+    if only_setdata:
+        r = 0.94 + 0.03 * r
     rel = rng.random() < 0.4
     single = rng.random() < 0.5
     if r < 0.36:
@@ -850,13 +1069,15 @@ def gen_op(rng, prev, dt, dm):
     if r < 0.85:
         w = rng.choice([0, 0, 1, 1, 1, 2, 3, -1, max(ny, nx)])
         return ('border', w, rng.random() < 0.6, rel)
-    if r < 0.93:
+    if r < 0.915:
         return ('masked', rand_mask(rng, prev), rng.random() < 0.6, rel)
     if r < 0.97:
         c = rng.random()
-        if c < 0.15:
+        if c < 0.10:
             return ('setdata', [[0.5, 1.0], [2.0, 0.0]], 'float64')
-        if c < 0.3:
+        if c > 0.55:
+            return gen_inplace(rng, prev, dt)
+        if c < 0.2:
             d = rand_array(rng)
             d[0][0] = -1
             return ('setdata', d, rng.choice(['int8', 'int16', 'int32', 'int64']))
@@ -886,7 +1107,10 @@ def alphabet(d, dt):
             ('border', 0, True, False), ('border', 0, True, True), ('border', 1, True, False),
             ('border', 1, False, False), ('border', 2, True, True),
             ('masked', m1, True, False), ('masked', m1, False, True), ('masked', m2, False, False),
-            ('setdata', NOBG, dt), ('setdata', ZERO, 'int16'), ('copy',)]
+            ('setdata', NOBG, dt), ('setdata', ZERO, 'int16'), ('copy',),
+            ('setdata_inplace', 'data', [['zero', b2]], 'same'),
+            ('setdata_inplace', 'ctor', [['paint', absent, [[0, 0], [ny - 1, nx - 1]]], ['zero', a]], 'same'),
+            ('setdata_inplace', '_data', [['swap', a, labs[-1]], ['paint', b2, [[ny - 1, 0]]]], 'view')]
     return ops
 
 
@@ -908,7 +1132,7 @@ def jobs_for(ctx):
         for j, (o1, o2) in enumerate(itertools.product(al, al)):
             if quick and o1[0] == 'read' and o2[0] == 'read':
                 continue        # covered by the thorough tier and by the random histories
-            if quick and name != 'doc' and o1[0] != 'read' and o2[0] != 'read' and j % 3:
+            if quick and name != 'doc' and j % 3:
                 continue
             jobs.append({'init': init, 'ops': [o1, o2, ('read', ATTRS[(len(jobs)) % len(ATTRS)])], 'group': 'exhaustive-2'})
     if not quick:   # all triples over a reduced alphabet
@@ -922,6 +1146,28 @@ def jobs_for(ctx):
             if all(o[0] == 'read' for o in t):
                 continue
             jobs.append({'init': init, 'ops': list(t), 'group': 'exhaustive-3'})
+    # several images on one buffer: read on the image that is NOT acted on, create a second image on
+    # the same buffer (second constructor call on the same array / slice = view), act on one of them
+    sb_arrays = [('doc', 'int64')] if quick else [('doc', 'int64'), ('disc', 'uint8'), ('nobg', 'int32'), ('consec', 'int16')]
+    for name, dt in sb_arrays:
+        d = FIXED[name]
+        ny, nx = len(d), len(d[0])
+        init = {'kind': 'array', 'data': d, 'dtype': dt}
+        hows = [['ctor'], ['slice', 0, ny, 0, nx], ['slice', 0, (ny + 1) // 2, 0, nx]]
+        for how in hows:
+            sub = d if how[0] == 'ctor' else [row[how[3]:how[4]] for row in d[how[1]:how[2]]]
+            for pre in ([None, 'segments'] if quick else [None, 'segments', '_raw_slices', 'areas', 'labels']):
+                for side in (0, 1):
+                    for m in [o for o in alphabet(sub if side == 1 else d, dt) if o[0] != 'read']:
+                        ops = []
+                        if pre and side == 1:
+                            ops.append(('read', pre))
+                        ops.append(('alias', 0, how))
+                        if pre and side == 0:
+                            ops.append(('on', 1, ('read', pre)))
+                        ops.append(m if side == 0 else ('on', 1, m))
+                        ops.append(('read', 'areas') if side == 1 else ('on', 1, ('read', 'areas')))
+                        jobs.append({'init': init, 'ops': ops, 'group': 'shared-buffer'})
     # random histories
     nrand = 600 if quick else 8000
     for _ in range(nrand):
@@ -967,8 +1213,12 @@ def run(ctx):
         '+ list of ops (20 attribute reads, reassign/keep/remove label(s), relabel_consecutive, remove_border_labels, '
         'remove_masked_labels, data setter, copy; valid, empty, duplicate, absent, zero, negative label sets, merging and '
         'out-of-range new labels, border widths 0,1,2,3,-1,too large, masks incl. wrong shape); all ordered pairs of a '
-        '52-op alphabet on fixed arrays (thorough: 6 arrays and all triples of a reduced alphabet) + random histories of '
-        'length 2..10; non-trivial = at least one step changed the label array; distinct = distinct (initial object, ops)')
+        '55-op alphabet on fixed arrays (thorough: 6 arrays and all triples of a reduced alphabet) + random histories of '
+        'length 2..10; data assignments of a fresh array, of the very array object the image holds (fetched through .data, '
+        '._data or the constructor argument) after the caller changed its contents in place, of a view / copy / other dtype of '
+        'it; several images on one buffer (second constructor call on the same array, slices segm[ys, xs], copies) with '
+        'operations interleaved across them, every image compared with a fresh image after each step and every array the '
+        'caller handed in compared bit for bit; non-trivial = at least one step changed the label array; distinct = distinct (initial object, ops)')
     ctx.assumptions += [
         'rasterio.features.shapes is modelled as "one shape per 8-connected region of equal non-zero value" (lib/Conn); '
         'the model is compared with it on every read of _geo_polygons (first pixel + value of each shape) and of '
